@@ -163,6 +163,11 @@ func (c *Ctx) Require(class string, min int64) {
 	if c.onlySub != "" || c.shardN > 1 {
 		return
 	}
+	// a case that panicked (or failed early) may not have been counted: once a violation is on record the guards
+	// are moot - a violation must never be turned into a harness error
+	if c.Rep.NViolations > 0 {
+		return
+	}
 	if c.Rep.Classes[class] < min {
 		c.Broken(fmt.Sprintf("vacuity guard: class %q has %d < %d cases", class, c.Rep.Classes[class], min))
 	}
